@@ -142,4 +142,12 @@ CHECKS = {
                  "rejected is taken, accept-all equals no filter, reject-p equals the no-filter forest minus trees using p, a precedence-encoding filter yields the precedence-correct tree.",
         "note": "Trusted: TLC, the recording filter (harness/stage_filter.Recorder), tree projection. Bounded: up to 3 operators, expressions <= 9 tokens, GLR forests up to 30 trees.",
     },
+    "C19": {
+        "engine": "tlc-trace", "design_ref": "DESIGN.md 3.9 StrTerm, 7 C19",
+        "technique": "StrTerm.tla computes literal and whole-word matching on code units itself; StrCheck.tla compares it with the real recognizers of the inline and the declared form at every position of every probe input, build outcomes and keyword classification, TLC",
+        "level": "For every explored text, KEYWORD rule and ignore_case value both forms must build, classify the text as keyword iff KEYWORD fully matches it, and match exactly where the TLA+ "
+                 "reference says (literal text; keywords only when not adjacent to a word character), identically for inline and declared form, and the sentence text + '!!' must parse.",
+        "note": "Trusted: TLC, re.fullmatch for keyword classification. Known findings (D11): inline texts containing '.', newline/tab, or equal to a rule/reserved name do not build; keywords with a non-word first or "
+                "last character use \\b which is not the stated adjacency rule. Token choice between keyword and regex terminals is covered by C07 (kw kind).",
+    },
 }
